@@ -870,7 +870,7 @@ func report(run *ev.Run, o *Outcome) {
 		wit := map[string]any{"minimal_case": mc, "original_case": o.Case, "finding": mf, "all_findings_of_minimal_case": mo.Findings,
 			"source": mo.Src.Describe(), "result_digest": mo.Result, "second_result_digest": mo.Result2, "manifests_written": mo.Written, "stored_manifests_named_by_findings": mo.Raw,
 			"requests_of_first_application": mo.Requests,
-			"reproduce":                      fmt.Sprintf("VERIF_SEED=%d ./check C13 --replay <this file>  (re-runs minimal_case: source BuildSource(%d), program as listed)", ev.Seed(), mc.SrcSeed)}
+			"reproduce":                     fmt.Sprintf("VERIF_SEED=%d ./check C13 --replay <this file>  (re-runs minimal_case: source BuildSource(%d), program as listed)", ev.Seed(), mc.SrcSeed)}
 		run.Violation(fp, fmt.Sprintf("[%s] %s (case %d %s, program %s)", mf.Step, trunc(mf.Detail, 600), mc.Idx, mc.Name, progString(mc.Prog)), wit)
 	}
 }
@@ -962,10 +962,12 @@ func coreCases() []Case {
 		}
 		return false
 	}
-	from = 1000
+	// (such sources are rare - about one seed in five hundred - so one is searched and used for all three targets)
+	sIR := int64(3666) // first such seed at the time of writing; verified here, searched again if the generator changed
+	if !inlineRaw(BuildSource(sIR, "h")) {
+		sIR = findSeed(1000, inlineRaw)
+	}
 	for k := 0; k < 3; k++ {
-		sIR := findSeed(from, inlineRaw)
-		from = sIR + 1
 		add("inline-uncompressed-layer-rewritten-in-place", sIR, "reg", []string{"same-digest", "other-repo", "layout"}[k], Opt{Kind: "layer-time", Set: "2022-01-01T00:00:00Z"})
 	}
 	add("rm-first-layer", sOCI, "reg", "same-digest", Opt{Kind: "layer-rm-index", N: 0})
@@ -1000,6 +1002,14 @@ func coreCases() []Case {
 	add("referrers-layout", sRef, "dir", "same-digest", Opt{Kind: "env", S1: "NEW", S2: "1"})
 	add("history-without-created", sNoCreated, "reg", "same-digest", Opt{Kind: "config-time", Set: "2022-01-01T00:00:00Z"})
 	add("buildarg-rm", sOCI, "reg", "same-digest", Opt{Kind: "buildarg-rm", S1: "VERSION", S2: "1.2.3"}, Opt{Kind: "layer-rm-index", N: 1})
+	// the build argument also appears as the text of a history entry that does produce a layer: removing the
+	// argument must not take that entry away (the layer stays)
+	from = 1000
+	for k := 0; k < 4; k++ {
+		sArg := findSeed(from, func(s *Source) bool { return single(s) && s.HasArgLayer && !s.HistNoCreated })
+		from = sArg + 1
+		add("buildarg-rm-on-a-layer-producing-entry", sArg, "reg", []string{"same-digest", "other-repo", "layout", "same-newtag"}[k], Opt{Kind: "buildarg-rm", S1: "VERSION", S2: "1.2.3"})
+	}
 	add("promote", idxOCI, "reg", "same-digest", Opt{Kind: "annotation-promote"}, Opt{Kind: "label-to-annotation"})
 	add("cached-client-index", idxOCI, "reg", "same-newtag", Opt{Kind: "annotation", S1: "[*]org.example.new", S2: "x"})
 	cs[len(cs)-1].Cache = true
